@@ -108,7 +108,7 @@ def _tla_value(txt):
     return json.loads(t)
 
 
-def run_model(name, timeout=600):
+def run_model(name, timeout=1800):
     dot = os.path.join(C.scratch(), f"GcGuard_{name}.dot")
     rc, out = C.run_tlc("GcGuard.tla", cfg=f"GcGuard_{name}.cfg", extra=["-dump", "dot,actionlabels", dot],
                         timeout=timeout)
@@ -435,7 +435,7 @@ def check(pid, tier, regen=False):
             jobs.append({"kind": "replay", "scripts": G["scripts"], "flips": G["flips"], "graph": gfile, "paths": ch})
             jobmeta.append((G, ch))
     t1 = time.time()
-    results = run_jobs(jobs, timeout=600 if tier == "quick" else 1500)
+    results = run_jobs(jobs, timeout=1800 if tier == "quick" else 3600)
     t_replay = time.time() - t1
 
     impl_cov = {lab: 0 for lab in LABELS}
@@ -500,7 +500,7 @@ def check(pid, tier, regen=False):
                                       "nparts": nparts, "part": part, "split_depth": 6 if nparts > 1 else 0,
                                       "budget_s": 45 if tier == "quick" else 900})
                         emeta.append(("|".join(scripts), gc0, drivers))
-            eres = run_jobs(ejobs, timeout=150 if tier == "quick" else 1500)
+            eres = run_jobs(ejobs, timeout=900 if tier == "quick" else 3000)
             explore["configs"] += len(ejobs)
             explore["phases"].append(phase)
             for (res, _tf), meta in zip(eres, emeta):
@@ -587,7 +587,7 @@ def replay(pid, path):
     job = {"kind": "run", "scripts": v["scripts"], "gc0": v["gc0"], "flips": v.get("flips", 0),
            "drivers": v.get("drivers"), "sched": v["schedule"],
            "check_dead": bool(v.get("trace") and v["trace"][-1].get("dead"))}
-    (res, tf), = run_jobs([job], timeout=120)
+    (res, tf), = run_jobs([job], timeout=900)
     n, bad = validate_traces([tf])
     info = res["info"]
     print(f"replay: scripts={'|'.join(v['scripts'])} gc0={v['gc0']} drivers={v.get('drivers')} "
